@@ -266,6 +266,36 @@ type c05Eng struct {
 	callVal map[*ast.CallExpr]c05Lin
 	// noWeaker: set while a widening join runs (only bounds that hold unchanged survive a widening)
 	noWeaker bool
+	// elemAll: for a [][]int parameter list P of the function under analysis (key of P -> v): every P[i][0] has
+	// the value v ("the request consists of the parameter v only, however often"). Used by contracts on
+	// dispatchers that loop over their parameter list (C06.p); elemOf: range value variable -> key of the
+	// ranged slice.
+	elemAll map[string]int64
+	elemOf  map[string]string
+}
+
+// elemAllVal: the atom a is P[i][0] (or param[0] for the value variable of a range over P) of a list in elemAll.
+func (e *c05Eng) elemAllVal(a string) (int64, bool) {
+	if len(e.elemAll) == 0 {
+		return 0, false
+	}
+	suffix := "[" + c05Const(0).key() + "]"
+	if !strings.HasPrefix(a, "a:") || !strings.HasSuffix(a, suffix) {
+		return 0, false
+	}
+	x := strings.TrimSuffix(strings.TrimPrefix(a, "a:"), suffix)
+	if b, ok := e.elemOf[x]; ok {
+		v, ok := e.elemAll[b]
+		return v, ok
+	}
+	if strings.HasPrefix(x, "a:") && strings.HasSuffix(x, "]") {
+		for b, v := range e.elemAll {
+			if strings.HasPrefix(x, "a:"+b+"[") && !strings.Contains(x[len("a:"+b+"["):len(x)-1], "]") {
+				return v, true
+			}
+		}
+	}
+	return 0, false
 }
 
 func newC05Eng(c *Ctx) *c05Eng {
@@ -460,6 +490,8 @@ func (e *c05Eng) valOf(st *c05State, a string) *c05Val {
 	var v *c05Val
 	if x, ok := st.env[a]; ok && !x.bot {
 		v = x.clone()
+	} else if k, ok := e.elemAllVal(a); ok {
+		v = c05Exact("", k)
 	} else {
 		v = c05Top()
 	}
@@ -761,7 +793,9 @@ func (e *c05Eng) linOf(fr *c05Frame, st *c05State, x ast.Expr) c05Lin {
 	case *ast.IndexExpr:
 		if k := e.indexKey(fr, st, t); k != "" {
 			if _, ok := st.env[k]; !ok {
-				if d := e.typeDefault(fr, x); len(d.lo)+len(d.hi) > 0 {
+				if kv, ok := e.elemAllVal(k); ok {
+					st.env[k] = c05Exact("", kv)
+				} else if d := e.typeDefault(fr, x); len(d.lo)+len(d.hi) > 0 {
 					st.env[k] = d
 				}
 			}
@@ -1029,6 +1063,9 @@ func (e *c05Eng) setBound(st *c05State, a string) *c05Val {
 	v, ok := st.env[a]
 	if !ok {
 		v = c05Top()
+		if k, ok := e.elemAllVal(a); ok {
+			v = c05Exact("", k)
+		}
 		st.env[a] = v
 	}
 	return v
@@ -2579,6 +2616,16 @@ func (e *c05Eng) bindRange(fr *c05Frame, st *c05State, rs *ast.RangeStmt) {
 	if rs.Value != nil {
 		if k := e.pathKey(fr, rs.Value); k != "" {
 			e.kill(st, k)
+			if len(e.elemAll) > 0 {
+				if xk := e.pathKey(fr, rs.X); xk != "" {
+					if _, ok := e.elemAll[xk]; ok {
+						if e.elemOf == nil {
+							e.elemOf = map[string]string{}
+						}
+						e.elemOf[k] = xk
+					}
+				}
+			}
 			// element of the ranged slice: type-based default via a synthetic index expression
 			d := e.typeDefault(fr, &ast.IndexExpr{X: rs.X, Index: &ast.BasicLit{Kind: token.INT, Value: "0"}})
 			if t := fr.info.TypeOf(rs.Value); t != nil && isIntType(t) && len(d.lo) > 0 {
